@@ -30,6 +30,7 @@ type Clnt struct {
 	tagpool  *Pool
 	reqout   chan *Req
 	done     chan bool
+	sendDone chan bool
 	reqfirst *Req
 	reqlast  *Req
 	err      error
@@ -110,7 +111,11 @@ func (clnt *Clnt) Rpcnb(r *Req) error {
 	clnt.Unlock()
 
 	verifPoint("rpcnb.queued", r)
-	clnt.reqout <- r
+	select {
+	case clnt.reqout <- r:
+	case <-clnt.done:
+		/* the connection is closed, recv reports the error on r.Done */
+	}
 	verifPoint("rpcnb.sent", r)
 	return nil
 }
@@ -247,7 +252,9 @@ func (clnt *Clnt) recv() {
 
 closed:
 	verifPoint("crecv.closing", clnt)
-	clnt.done <- true
+	close(clnt.done)
+	/* once the writer is gone nobody uses the pending requests any more */
+	<-clnt.sendDone
 	verifPoint("crecv.fanout", clnt)
 
 	/* send error to all pending requests */
@@ -287,6 +294,7 @@ closed:
 }
 
 func (clnt *Clnt) send() {
+	defer close(clnt.sendDone)
 	for {
 		select {
 		case <-clnt.done:
@@ -340,6 +348,7 @@ func NewClnt(c net.Conn, msize uint32, dotu bool) *Clnt {
 	clnt.tagpool = NewPool(0, uint32(NOTAG))
 	clnt.reqout = make(chan *Req)
 	clnt.done = make(chan bool)
+	clnt.sendDone = make(chan bool)
 	clnt.reqchan = make(chan *Req, 16)
 	clnt.tchan = make(chan *Fcall, 16)
 
